@@ -224,6 +224,7 @@ class Ctx(object):
         self.trace = []
         self.identity_violations = 0
         self.last_body_result = {}
+        self.threads_icpt = []
         self.journal = []          # harness-side notes about what the program did (not part of the modelled trace)
 
 
@@ -380,6 +381,19 @@ def interp(ctx, c, env):
                 return interp(ctx, c["c"], env)
             except Exception:
                 return interp(ctx, c["h"], env)
+        elif k == "spawn":
+            import threading
+
+            def target(code=c["c"], e=list(env)):
+                try:
+                    interp(ctx, code, e)
+                except BaseException:      # whatever the worker returns or raises dies with the thread
+                    pass
+            t = threading.Thread(target=target)
+            t.start()
+            t.join()
+            ctx.threads_icpt.append(bool(ctx.rec._currently_in_interception))
+            c = c["next"]
         elif k == "discard":
             ctx.journal.append({"j": "discard", "active": ctx.rec._active_recording is not None})
             ctx.rec.discard_recording()
